@@ -251,8 +251,20 @@ void common_fns()
   {
     std::vector<T> ps = lattice<T>();
     if constexpr (sizeof(T) == 1)
+    {
       if (vf::thorough())
         ps = full_range<T>();
+    }
+    else if (ps.size() > 48 && !vf::thorough())
+    {
+      // quick: an evenly thinned lattice for the bounds (min, max and the values around 0 stay in)
+      std::vector<T> q;
+      for (std::size_t i = 0; i < ps.size(); ++i)
+        if (i % (ps.size() / 40 + 1) == 0 || i + 1 == ps.size() || (ps[i] >= static_cast<T>(0) && ps[i] <= static_cast<T>(2)) ||
+            static_cast<i128>(ps[i]) == -1)
+          q.push_back(ps[i]);
+      ps = q;
+    }
     auto const vs = binary_values<T>("clamp-v-" + t, vf::tier<std::size_t>(20, 200));
     std::string const e = "math::clamp<" + t + ">";
     if (vf::entry_enabled(e))
@@ -2071,7 +2083,7 @@ void vf_slice_8() { filesystem_all(); }
 #endif
 
 // =================================================================================================== options
-#if VF_IN_SLICE(9)
+#if VF_IN_SLICE(9) || VF_IN_SLICE(12)
 #include <fcppt/args_vector.hpp>
 #include <fcppt/either/object.hpp>
 #include <fcppt/optional/is_object.hpp>
@@ -2337,7 +2349,10 @@ void ill_formed(char const *name, Make const &make)
   vf::count("calls/" + e);
 }
 
-void options_all()
+}
+#endif
+#if VF_IN_SLICE(9)
+void vf_slice_9()
 {
   is_flag_all();
   next_arg_all();
@@ -2348,6 +2363,22 @@ void options_all()
   shape("option<int>", [] { return mk_opt(); });
   shape("option<int>+default", [] { return mk_opt_default(); });
   shape("apply(argument<string>,option<int>+default,switch)", [] { return o::apply(mk_arg_str(), mk_opt_default(), mk_switch()); });
+  ill_formed("flag:active==inactive", [] {
+    return o::flag<l_flag, int>{o::optional_short_name{}, o::long_name{"flag"}, o::make_active_value(0), o::make_inactive_value(0),
+                                o::optional_help_text{}};
+  });
+  ill_formed("flag:short==long", [] {
+    return o::flag<l_flag, int>{o::optional_short_name{o::short_name{"flag"}}, o::long_name{"flag"}, o::make_active_value(0),
+                                o::make_inactive_value(1), o::optional_help_text{}};
+  });
+  ill_formed("switch:short==long", [] {
+    return o::switch_<l_switch>{o::optional_short_name{o::short_name{"x"}}, o::long_name{"x"}, o::optional_help_text{}};
+  });
+}
+#endif
+#if VF_IN_SLICE(12)
+void vf_slice_12()
+{
   shape("optional(argument<int>)", [] { return o::make_optional(mk_arg_int()); });
   shape("many(argument<int>)", [] { return o::make_many(mk_arg_int()); });
   shape("many(apply(argument<int>,option<int>))", [] { return o::make_many(o::apply(mk_arg_int(), mk_opt())); });
@@ -2356,14 +2387,6 @@ void options_all()
   shape("commands(option<int>+default;foo:argument<int>;bar:option<int>)", [] {
     return o::make_commands(mk_opt_default(), o::make_sub_command<l_foo>("foo", mk_arg_int(), o::optional_help_text{}),
                             o::make_sub_command<l_bar>("bar", mk_opt(), o::optional_help_text{}));
-  });
-  ill_formed("flag:active==inactive", [] {
-    return o::flag<l_flag, int>{o::optional_short_name{}, o::long_name{"flag"}, o::make_active_value(0), o::make_inactive_value(0),
-                                o::optional_help_text{}};
-  });
-  ill_formed("flag:short==long", [] {
-    return o::flag<l_flag, int>{o::optional_short_name{o::short_name{"flag"}}, o::long_name{"flag"}, o::make_active_value(0),
-                                o::make_inactive_value(1), o::optional_help_text{}};
   });
   ill_formed("apply:duplicate-names", [] {
     return o::apply(o::flag<l_flag, int>{o::optional_short_name{}, o::long_name{"flag"}, o::make_active_value(0),
@@ -2374,27 +2397,520 @@ void options_all()
     return o::make_commands(mk_opt_default(), o::make_sub_command<l_foo>("foo", mk_arg_int(), o::optional_help_text{}),
                             o::make_sub_command<l_bar>("foo", mk_arg_str(), o::optional_help_text{}));
   });
-  ill_formed("switch:short==long", [] {
-    return o::switch_<l_switch>{o::optional_short_name{o::short_name{"x"}}, o::long_name{"x"}, o::optional_help_text{}};
-  });
+}
+#endif
+
+// =================================================================================================== parse
+#if VF_IN_SLICE(10) || VF_IN_SLICE(11) || VF_IN_SLICE(13)
+#include <fcppt/make_cref.hpp>
+#include <fcppt/either/object.hpp>
+#include <fcppt/parse/phrase_parse_stream.hpp>
+#include <fcppt/parse/phrase_parse_string.hpp>
+#include <fcppt/parse/parse_string.hpp>
+#include <fcppt/parse/skipper/epsilon.hpp>
+#include <fcppt/parse/skipper/basic_char_set.hpp>
+#include <fcppt/parse/skipper/space.hpp>
+#include <fcppt/parse/skipper/operators/repetition.hpp>
+
+namespace
+{
+namespace p = fcppt::parse;
+
+// all strings of length <= maxlen over the alphabet
+[[maybe_unused]] std::vector<std::string> all_strings(std::string_view const alphabet, unsigned const maxlen)
+{
+  std::vector<std::string> r;
+  for (unsigned len = 0; len <= maxlen; ++len)
+  {
+    std::vector<std::size_t> ix(len, 0);
+    for (;;)
+    {
+      std::string s;
+      for (std::size_t i : ix)
+        s += alphabet[i];
+      r.push_back(s);
+      std::size_t k = 0;
+      while (k < len && ++ix[k] == alphabet.size())
+        ix[k++] = 0;
+      if (k == len)
+        break;
+    }
+  }
+  return r;
+}
+
+// skipper::basic_space<wchar_t>() does not compile (it builds a char_set<char>), so the wide skipper is spelled out
+template <class Ch>
+auto space_skipper()
+{
+  return *p::skipper::basic_char_set<Ch>{Ch(' '), Ch('\t'), Ch('\n'), Ch('\r'), Ch('\v'), Ch('\f')};
+}
+
+template <class Ch>
+std::basic_string<Ch> conv(std::string const &s)
+{
+  if constexpr (std::is_same_v<Ch, char>)
+    return s;
+  else
+    return to_wide(s);
+}
+
+// parse_string (no skipper) and phrase_parse_string (space skipper) on every input
+template <class Ch, bool WithoutSkipper = true, class Parser>
+void run_grammar(std::string const &name, Parser const &parser, std::vector<std::string> const &inputs)
+{
+  for (bool skip : {false, true})
+  {
+    if (!skip && !WithoutSkipper)
+      continue; // rules behind base_unique_ptr are bound to one skipper type
+    std::string const e = std::string(skip ? "parse::phrase_parse_string<" : "parse::parse_string<") + name + ">";
+    if (!vf::entry_enabled(e))
+      continue;
+    vf::set_entry(e);
+    std::uint64_t calls = 0;
+    for (std::string const &in : inputs)
+    {
+      if (!my_item())
+        continue;
+      if (!vf::begin_case("input(len %zu)=\"%s\"", in.size(), printable(in).c_str()))
+        continue;
+      vf::sample_case(1);
+      vf::note_distinct(vf::hash_mix(vf::hash_str(e), vf::hash_str(in)));
+      guard(wl_none, [&] {
+        if (skip)
+        {
+          auto const r = p::phrase_parse_string(parser, conv<Ch>(in), space_skipper<Ch>());
+          if (r.has_success())
+            VF_COUNT("outcome/phrase_parse_string/success");
+          else
+            VF_COUNT("outcome/phrase_parse_string/failure");
+        }
+        else if constexpr (WithoutSkipper)
+        {
+          auto const r = p::parse_string(parser, conv<Ch>(in));
+          if (r.has_success())
+            VF_COUNT("outcome/parse_string/success");
+          else
+            VF_COUNT("outcome/parse_string/failure");
+        }
+      });
+      ++calls;
+    }
+    vf::count("calls/" + e, calls);
+  }
+}
+
+// phrase_parse_stream over the fault-injecting buffers: every position, eof/throw, seekable or not, exceptions off/on
+template <class Ch, class Parser>
+void run_grammar_faults(std::string const &name, Parser const &parser, std::vector<std::string> const &texts)
+{
+  std::string const e = "parse::phrase_parse_stream<" + name + ">/faults";
+  if (!vf::entry_enabled(e))
+    return;
+  vf::set_entry(e);
+  std::uint64_t calls = 0;
+  for (std::string const &t : texts)
+    for (bool seekable : {true, false})
+      for (bool ex : {false, true})
+        for (fault f : {fault::none, fault::eof_after, fault::throw_after})
+          for (std::size_t k = 0; k <= t.size(); ++k)
+          {
+            if (f == fault::none && (k != 0 || ex))
+              continue;
+            if (!my_item())
+              continue;
+            if (!vf::begin_case("text(len %zu)=\"%s\" %s(%zu)%s%s", t.size(), printable(t).c_str(),
+                                f == fault::none ? "none" : f == fault::eof_after ? "eof_after" : "throw_after", k,
+                                seekable ? ",seekable" : ",noseek", ex ? ",exceptions(badbit)" : ""))
+              continue;
+            vf::sample_case(2);
+            vf::note_distinct(vf::hash_mix(vf::hash_mix(vf::hash_str(e), vf::hash_str(t)),
+                                           k * 16 + static_cast<unsigned>(f) * 4 + (seekable ? 2 : 0) + (ex ? 1 : 0)));
+            fault_buf<Ch> buf(conv<Ch>(t), f, k, seekable);
+            std::basic_istream<Ch> is(&buf);
+            is.unsetf(std::ios_base::skipws);
+            if (ex)
+              is.exceptions(std::ios_base::badbit);
+            bool success = false;
+            bool const returned = guard(ex ? (wl_ios_failure | wl_injected) : wl_none, [&] {
+              auto const r = p::phrase_parse_stream(parser, is, space_skipper<Ch>());
+              success = r.has_success();
+            });
+            ++calls;
+            if (buf.exhausted())
+              vf::violation("harness/double-budget-exhausted", "harness", e + ": the parser did not stop at end of file");
+            if (returned)
+              vf::count(success ? "outcome/phrase_parse_stream/success" : "outcome/phrase_parse_stream/failure");
+            if (f == fault::throw_after && buf.fault_reached())
+            {
+              vf::count(ex ? "parse-faults/throw/reached/exceptions-on" : "parse-faults/throw/reached/exceptions-off");
+              if (!ex && returned)
+                vf::count(success ? "observed/parse-after-throwing-underflow/success" : "observed/parse-after-throwing-underflow/failure");
+            }
+            if (!seekable && returned)
+              vf::count(success ? "observed/parse-noseek/success" : "observed/parse-noseek/failure");
+          }
+  vf::count("calls/" + e, calls);
 }
 }
-void vf_slice_9() { options_all(); }
+#endif
+
+#if VF_IN_SLICE(10) || VF_IN_SLICE(13)
+#include <fcppt/parse/basic_char.hpp>
+#include <fcppt/parse/basic_char_set.hpp>
+#include <fcppt/parse/basic_literal.hpp>
+#include <fcppt/parse/char.hpp>
+#include <fcppt/parse/char_set.hpp>
+#include <fcppt/parse/float.hpp>
+#include <fcppt/parse/int.hpp>
+#include <fcppt/parse/list.hpp>
+#include <fcppt/parse/literal.hpp>
+#include <fcppt/parse/make_fatal.hpp>
+#include <fcppt/parse/make_lexeme.hpp>
+#include <fcppt/parse/separator.hpp>
+#include <fcppt/parse/string.hpp>
+#include <fcppt/parse/uint.hpp>
+#include <fcppt/parse/operators/alternative.hpp>
+#include <fcppt/parse/operators/complement.hpp>
+#include <fcppt/parse/operators/not.hpp>
+#include <fcppt/parse/operators/optional.hpp>
+#include <fcppt/parse/operators/repetition.hpp>
+#include <fcppt/parse/operators/repetition_plus.hpp>
+#include <fcppt/parse/operators/sequence.hpp>
+#endif
+
+#if VF_IN_SLICE(10)
+void vf_slice_10()
+{
+  std::vector<std::string> numeric = string_lattice();
+  {
+    vf::rng g(vf::seed_for("parse-numeric"));
+    for (unsigned i = 0; i < vf::tier(200U, 10000U); ++i)
+      numeric.push_back(random_string(g, std::string_view("0123456789+-. eE\ta\0", 19), 24));
+  }
+  run_grammar<char>("int_<int>", p::int_<int>{}, numeric);
+  run_grammar<char>("int_<llong>", p::int_<long long>{}, numeric);
+  run_grammar<char>("uint<unsigned>", p::uint<unsigned>{}, numeric);
+  run_grammar<char>("uint<ullong>", p::uint<unsigned long long>{}, numeric);
+  run_grammar<char>("uint<ushort>", p::uint<unsigned short>{}, numeric);
+  run_grammar<char>("float_<float>", p::float_<float>{}, numeric);
+  run_grammar<char>("float_<double>", p::float_<double>{}, numeric);
+  run_grammar<wchar_t>("int_<int>,wchar_t", p::int_<int>{}, numeric);
+  run_grammar<wchar_t>("float_<double>,wchar_t", p::float_<double>{}, numeric);
+  run_grammar<char>("*int_<int>", *p::int_<int>{}, numeric);
+  run_grammar_faults<char>("float_<double>", p::float_<double>{}, {"3.25e2", "-1", "1e999", "x"});
+}
+#endif
+
+#if VF_IN_SLICE(13)
+void vf_slice_13()
+{
+  unsigned const L = vf::tier(5U, 7U);
+  auto abc = all_strings("abc ", L);
+  run_grammar<char>("*char_set{a,b}>>literal(c)", *p::char_set{'a', 'b'} >> p::literal{'c'}, abc);
+  run_grammar<char>("+char_set{a}>>-literal(b)>>!literal(c)>>char_", +p::char_set{'a'} >> -p::literal{'b'} >> !p::literal{'c'} >> p::char_{}, abc);
+  run_grammar<char>("string(ab)|string(abc)|string(a)", p::string{std::string{"ab"}} | p::string{std::string{"abc"}} | p::string{std::string{"a"}}, abc);
+  run_grammar<char>("literal(a)>>fatal(literal(b))|string(ac)",
+                    (p::literal{'a'} >> p::make_fatal(p::literal{'b'})) | p::string{std::string{"ac"}}, abc);
+  run_grammar<char>("*fatal(literal(a))", *p::make_fatal(p::literal{'a'}), abc);
+  run_grammar<char>("lexeme(*~char_set{c})>>literal(c)", p::make_lexeme(*~p::char_set{'c'}) >> p::literal{'c'}, abc);
+  run_grammar<wchar_t>("*basic_char_set<wchar_t>{a,b}>>basic_literal<wchar_t>(c)",
+                       *p::basic_char_set<wchar_t>{L'a', L'b'} >> p::basic_literal<wchar_t>{L'c'}, abc);
+
+  auto lists = all_strings("[],1- ", vf::tier(5U, 6U));
+  for (char const *s : {"[1,2,3]", "[ 1 , 2 ]", "[1,,2]", "[1,2", "[99999999999,1]", "[-2147483648,2147483647]", "[2147483648]", "[1,2]]", "[[1]]"})
+    lists.emplace_back(s);
+  run_grammar<char>("literal([)>>separator(int_<int>,literal(,))>>literal(])",
+                    p::literal{'['} >> p::separator(p::int_<int>{}, p::literal{','}) >> p::literal{']'}, lists);
+  run_grammar<char>("list([,fatal(~char_set{,]}),,,])",
+                    p::list{p::literal{'['}, p::make_fatal(~p::char_set{',', ']'}), p::literal{','}, p::literal{']'}}, lists);
+
+  // the same grammars over failing streams
+  auto const list_parser = p::literal{'['} >> p::separator(p::int_<int>{}, p::literal{','}) >> p::literal{']'};
+  run_grammar_faults<char>("literal([)>>separator(int_<int>,literal(,))>>literal(])", list_parser,
+                           {"[1, 22 ,333]", "[]", "", "[1,", "x", " [ 12 ] tail"});
+  run_grammar_faults<wchar_t>("literal([)>>separator(int_<int>,literal(,))>>literal(]),wchar_t",
+                              p::basic_literal<wchar_t>{L'['} >> p::separator(p::int_<int>{}, p::basic_literal<wchar_t>{L','}) >> p::basic_literal<wchar_t>{L']'},
+                              {"[1, 22 ,333]", "[]", ""});
+  run_grammar_faults<char>("*char_set{a,b}>>literal(c)", *p::char_set{'a', 'b'} >> p::literal{'c'}, {"ababc", "c", "abx", ""});
+}
+#endif
+
+#if VF_IN_SLICE(11)
+#include <fcppt/nonmovable.hpp>
+#include <fcppt/not.hpp>
+#include <fcppt/recursive.hpp>
+#include <fcppt/algorithm/fold.hpp>
+#include <fcppt/container/insert.hpp>
+#include <fcppt/container/make_move_range.hpp>
+#include <fcppt/either/try_call.hpp>
+#include <fcppt/parse/base_unique_ptr.hpp>
+#include <fcppt/parse/char_set.hpp>
+#include <fcppt/parse/construct.hpp>
+#include <fcppt/parse/convert_const.hpp>
+#include <fcppt/parse/deref.hpp>
+#include <fcppt/parse/error.hpp>
+#include <fcppt/parse/grammar.hpp>
+#include <fcppt/parse/grammar_parse_string.hpp>
+#include <fcppt/parse/int.hpp>
+#include <fcppt/parse/literal.hpp>
+#include <fcppt/parse/make_base.hpp>
+#include <fcppt/parse/make_convert_if.hpp>
+#include <fcppt/parse/make_lexeme.hpp>
+#include <fcppt/parse/make_recursive.hpp>
+#include <fcppt/parse/separator.hpp>
+#include <fcppt/parse/string.hpp>
+#include <fcppt/parse/operators/alternative.hpp>
+#include <fcppt/parse/operators/complement.hpp>
+#include <fcppt/parse/operators/repetition.hpp>
+#include <fcppt/parse/operators/sequence.hpp>
+#include <fcppt/tuple/get.hpp>
+#include <fcppt/tuple/object.hpp>
+#include <fcppt/variant/object.hpp>
+
+#include <unordered_map>
+
+namespace
+{
+// The JSON grammar of /repo/test/parse/json.cpp (recursive rules through base_unique_ptr, a throwing semantic
+// action converted by either::try_call).
+namespace json
+{
+struct null
+{
+};
+class value
+{
+public:
+  using type = fcppt::variant::object<json::null, bool, int, std::string, std::vector<fcppt::recursive<json::value>>,
+                                      std::unordered_map<std::string, fcppt::recursive<json::value>>>;
+  explicit value(type &&_impl) : impl_{std::move(_impl)} {}
+  [[nodiscard]] type const &get() const { return impl_; }
+
+private:
+  type impl_;
+};
+using array = std::vector<fcppt::recursive<json::value>>;
+using object = std::unordered_map<std::string, fcppt::recursive<json::value>>;
+class double_insert
+{
+};
+using entries = std::vector<fcppt::tuple::object<std::string, fcppt::recursive<json::value>>>;
+
+json::object make_object_(json::entries &&_args)
+{
+  return fcppt::algorithm::fold(
+      fcppt::container::make_move_range(std::move(_args)), object{},
+      [](fcppt::tuple::object<std::string, fcppt::recursive<json::value>> &&_element, json::object &&_state) {
+        if (fcppt::not_(fcppt::container::insert(
+                _state, json::object::value_type{std::move(fcppt::tuple::get<0>(_element)), std::move(fcppt::tuple::get<1>(_element))})))
+          throw json::double_insert{};
+        return std::move(_state);
+      });
+}
+fcppt::parse::result<char, json::object> make_object(json::entries &&_args)
+{
+  return fcppt::either::try_call<json::double_insert>([&_args] { return make_object_(std::move(_args)); },
+                                                      [](json::double_insert const &) {
+                                                        return fcppt::parse::error<char>{std::string{"Double insert"}};
+                                                      });
+}
+using start = fcppt::variant::object<json::array, json::object>;
+}
+
+using json_skipper = decltype(fcppt::parse::skipper::space());
+template <typename Type>
+using json_base = fcppt::parse::base_unique_ptr<Type, char, json_skipper>;
+
+class json_parser
+{
+  FCPPT_NONMOVABLE(json_parser);
+
+public:
+  json_parser()
+      : string_{p::make_base<char, json_skipper>(p::literal('"') >> p::make_lexeme(*~p::char_set{'"'}) >> p::literal('"'))},
+        value_{p::make_base<char, json_skipper>(p::construct<json::value>(
+            p::convert_const(p::string("null"), json::null{}) |
+            (p::convert_const(p::string("true"), true) | p::convert_const(p::string("false"), false)) | p::int_<int>{} |
+            fcppt::make_cref(string_) | fcppt::make_cref(array_) | fcppt::make_cref(object_)))},
+        object_{p::make_base<char, json_skipper>(p::make_convert_if(
+            p::literal('{') >>
+                p::separator(fcppt::make_cref(string_) >> p::literal(':') >> p::make_recursive(fcppt::make_cref(value_)),
+                             p::literal{','}) >>
+                p::literal('}'),
+            [](json::entries &&_entries) { return json::make_object(std::move(_entries)); }))},
+        array_{p::make_base<char, json_skipper>(
+            p::literal('[') >> p::separator(p::make_recursive(fcppt::make_cref(value_)), p::literal{','}) >> p::literal(']'))},
+        start_{p::make_base<char, json_skipper>(fcppt::make_cref(array_) | fcppt::make_cref(object_))}
+  {
+  }
+  ~json_parser() = default;
+  [[nodiscard]] json_base<json::start> const &get() const { return start_; }
+
+private:
+  json_base<std::string> string_;
+  json_base<json::value> value_;
+  json_base<json::object> object_;
+  json_base<json::array> array_;
+  json_base<json::start> start_;
+};
+
+// a grammar object (fcppt::parse::grammar) for grammar_parse_string
+class int_list_grammar : public fcppt::parse::grammar<std::vector<int>, char, json_skipper>
+{
+  FCPPT_NONMOVABLE(int_list_grammar);
+
+public:
+  int_list_grammar()
+      : grammar_base{fcppt::make_cref(this->start_), fcppt::parse::skipper::space()},
+        start_{grammar_base::make_base(p::literal{'['} >> p::separator(p::int_<int>{}, p::literal{','}) >> p::literal{']'})}
+  {
+  }
+  ~int_list_grammar() = default;
+
+private:
+  grammar_base::base_type<std::vector<int>> start_;
+};
+
+std::vector<std::string> json_inputs()
+{
+  std::vector<std::string> r = string_lattice();
+  std::vector<std::string> const docs{"[]", "{}", "[1]", "[null]", "[true]", "[false]", "[ \"test\" ]", "[1, true]", "{\"XY\":42}",
+                                      " { \"XY\" : 42 }", "{\"X\" : true,\"Y\" : [ 10, false, null ],\"Z\" : { \"A\" : \"test\", \"B\" : 20 }}",
+                                      "{\"a\":1,\"a\":2}", "[[[[[[]]]]]]", "[{\"a\":[{\"b\":[]}]}]", "[99999999999999999999]", "[-2147483648]",
+                                      "[2147483648]", "[\"unterminated", "[\"\"]", "{\"\":\"\"}", "{\"a\":1,\"b\":{\"a\":1,\"a\":1}}", "[1,]", "[,1]",
+                                      "{\"a\"}", "{\"a\":}", "{:1}", "[nul]", "[nulll]", "[truefalse]", "[- 1]", "[1 2]", "[\"a\" \"b\"]"};
+  for (auto const &d : docs)
+  {
+    r.push_back(d);
+    for (std::size_t k = 0; k < d.size(); ++k)
+      r.push_back(d.substr(0, k)); // every prefix
+  }
+  for (unsigned depth : {10U, 20U, 40U})
+  {
+    r.push_back(std::string(depth, '[') + std::string(depth, ']'));
+    r.push_back(std::string(depth, '['));
+    std::string o, c;
+    for (unsigned i = 0; i < depth; ++i)
+    {
+      o += "{\"k\":";
+      c += "}";
+    }
+    r.push_back(o + "[]" + c);
+    r.push_back(o);
+  }
+  // mutations of valid documents and random token sequences
+  vf::rng g(vf::seed_for("json-inputs"));
+  static char const *const toks[] = {"[", "]", "{", "}", ",", ":", "\"", "\"a\"", "\"\"", "null", "true", "false", "0", "-1", "42",
+                                     "99999999999", " ", "\n", "x", "-", "\"k\":", "[]", "{}", "nul", "tru"};
+  unsigned const n = vf::tier(400U, 20000U);
+  for (unsigned i = 0; i < n; ++i)
+  {
+    if (g.chance(1, 2))
+    {
+      std::string d = docs[g.below(docs.size())];
+      unsigned const edits = 1 + static_cast<unsigned>(g.below(3));
+      for (unsigned k = 0; k < edits && !d.empty(); ++k)
+      {
+        std::size_t const pos = g.below(d.size());
+        switch (g.below(3))
+        {
+        case 0: d.erase(pos, 1); break;
+        case 1: d.insert(pos, toks[g.below(sizeof toks / sizeof toks[0])]); break;
+        default: d[pos] = "[]{},:\"0 x"[g.below(10)]; break;
+        }
+      }
+      r.push_back(d);
+    }
+    else
+    {
+      std::string d;
+      std::size_t const len = g.below(14);
+      for (std::size_t k = 0; k < len; ++k)
+        d += toks[g.below(sizeof toks / sizeof toks[0])];
+      r.push_back(d);
+    }
+  }
+  return r;
+}
+}
+
+void vf_slice_11()
+{
+  json_parser const jp{};
+  auto const inputs = json_inputs();
+  run_grammar<char, false>("json", fcppt::parse::deref(jp.get()), inputs);
+  run_grammar_faults<char>("json", fcppt::parse::deref(jp.get()),
+                           {"{\"X\" : true,\"Y\" : [ 10, false, null ]}", "[1, \"a\", {}]", "[", ""});
+  {
+    std::string const e = "parse::grammar_parse_string<int-list-grammar>";
+    if (vf::entry_enabled(e))
+    {
+      vf::set_entry(e);
+      int_list_grammar const grammar{};
+      auto lists = all_strings("[],1- ", vf::tier(4U, 5U));
+      for (char const *s : {"[1,2,3]", "[ 1 , 2 ]", "[1,,2]", "[1,2", "[99999999999,1]", "[2147483648]", "[1,2]]"})
+        lists.emplace_back(s);
+      std::uint64_t calls = 0;
+      for (std::string const &in : lists)
+      {
+        if (!my_item())
+          continue;
+        if (!vf::begin_case("input(len %zu)=\"%s\"", in.size(), printable(in).c_str()))
+          continue;
+        vf::sample_case(1);
+        vf::note_distinct(vf::hash_mix(vf::hash_str(e), vf::hash_str(in)));
+        guard(wl_none, [&] {
+          auto const r = p::grammar_parse_string(std::string{in}, grammar);
+          if (r.has_success())
+            VF_COUNT("outcome/grammar_parse_string/success");
+          else
+            VF_COUNT("outcome/grammar_parse_string/failure");
+        });
+        ++calls;
+      }
+      vf::count("calls/" + e, calls);
+    }
+  }
+}
 #endif
 
 //@@NEXT@@
 
 // =================================================================================================== main
 #if VF_SLICE < 0
-#define C01_SLICES(X) X(0) X(1) X(2) X(3) X(4) X(5) X(6) X(7) X(8) X(9)
+#define C01_SLICES(X) X(0) X(1) X(2) X(3) X(4) X(5) X(6) X(7) X(8) X(9) X(10) X(11) X(12) X(13)
 #define C01_DECL(i) void vf_slice_##i();
 C01_SLICES(C01_DECL)
 namespace
 {
 void body()
 {
-  for (char const *b : {"bucket/log2/top-bit-set", "bucket/log2/top-bit-clear", "bucket/next_power_of_2/representable"})
+  for (char const *b :
+       {"bucket/log2/top-bit-set", "bucket/log2/top-bit-clear", "bucket/next_power_of_2/representable", "bucket/diff/representable",
+        "bucket/interval_distance/containment", "bucket/interval_distance/gap", "bucket/interval_distance/touch-or-overlap",
+        "outcome/widen/returned", "outcome/widen/threw", "outcome/parse/success", "outcome/parse/failure",
+        "outcome/parse_help/help-text", "outcome/parse_help/result", "outcome/parse_string/success", "outcome/parse_string/failure",
+        "outcome/phrase_parse_string/success", "outcome/phrase_parse_string/failure", "outcome/grammar_parse_string/success",
+        "outcome/grammar_parse_string/failure", "outcome/phrase_parse_stream/success", "outcome/phrase_parse_stream/failure",
+        "outcome/create_directory/error", "outcome/create_directory/no-error", "outcome/create_directories_recursive/error",
+        "outcome/create_directories_recursive/no-error", "outcome/make_directory_range/success",
+        "outcome/make_directory_range/failure", "outcome/make_recursive_directory_range/success",
+        "outcome/make_recursive_directory_range/failure", "outcome/runtime_index/function", "outcome/runtime_index/fail-function",
+        "outcome/ill-formed-definition/threw", "outcome/is_power_of_2/true", "outcome/is_power_of_2/false",
+        "faults/throw/reached/exceptions-off", "faults/throw/reached/exceptions-on", "faults/eof/reached",
+        "parse-faults/throw/reached/exceptions-off", "parse-faults/throw/reached/exceptions-on", "streams/istringstream"})
     vf::require_bucket(b);
+  // an entry family that never returned both outcomes where both are possible makes the run inconclusive
+  for (char const *f : {"ceil_div", "ceil_div_signed", "div", "mod", "clamp", "div-float", "mod-float", "clamp-float", "truncation_check",
+                        "from_int", "from_string", "at_optional", "maybe_front", "maybe_back", "pop_back", "pop_front", "find_opt",
+                        "find_opt_mapped", "grid::at_optional", "from_range", "dynamic", "extract_from_string", "narrow",
+                        "io::stream_to_string", "io::read_chars", "io::get", "io::peek", "io::extract", "io::read", "file_size", "open",
+                        "is_flag", "next_arg"})
+  {
+    vf::require_bucket(std::string("outcome/") + f + "/present");
+    vf::require_bucket(std::string("outcome/") + f + "/absent");
+  }
   vf::require_bucket("harness/double-selftest-passed");
   // self-test of the fault-injecting stream buffers against std::basic_stringbuf (every process, it is cheap)
   vf::set_entry("harness/test-doubles");
